@@ -916,12 +916,12 @@ def show(t, depth=0):
 
 
 class Facts:
-    def __init__(self, raw):
+    def __init__(self, raw, keep_helper=None):
         self.raw = raw
         self.crate = raw["crate"]
-        # helpers that did not exist on the pinned tree are inlined into their callers (see inline.py)
+        # helpers that did not exist on the pinned tree are inlined into their callers (see inline.py); keep_helper(path) -> True leaves a helper as a call
         from . import inline
-        self.inlined = inline.inline_new_helpers(raw)
+        self.inlined = inline.inline_new_helpers(raw, keep=keep_helper)
         self.features = raw.get("features", [])
         self.bodies = {}
         self.order = []
